@@ -40,6 +40,13 @@ Inputs == {[flag |-> f, toml |-> t, contracts |-> c] :
               f \in {"", "P"}, t \in {<<>>} \cup Tomls, c \in (IF Small THEN {TRUE} ELSE BOOLEAN)}
           \cup {[flag |-> f, toml |-> <<>>, contracts |-> FALSE] : f \in {"", "P"}}
           \cup {[flag |-> "", toml |-> TomlOf("T", First("optimizations"), <<>>, <<>>), contracts |-> FALSE]}
+          \* the default directory named explicitly: an explicit --path still wins over the configuration file,
+          \* and a configuration file that names ./contracts is obeyed like any other
+          \cup {[flag |-> "./contracts", toml |-> t, contracts |-> TRUE]
+                  : t \in {<<>>, TomlOf("T", First("optimizations"), First("vulnerabilities"), First("qa")),
+                           TomlOf("T", <<>>, First("vulnerabilities"), <<>>)}}
+          \cup {[flag |-> f, toml |-> TomlOf("./contracts", First("optimizations"), First("vulnerabilities"), First("qa")), contracts |-> TRUE]
+                  : f \in {"", "P"}}
 
 VARIABLES inp, pc, k, i, selected, dir, written
 vars == <<inp, pc, k, i, selected, dir, written>>
